@@ -12,8 +12,9 @@ Proof. repeat split; reflexivity. Qed.
 
 Lemma on_stream_terminated_eq : forall c s, on_stream_terminated c s = (s, SRemoteTerminate c).
 Proof. reflexivity. Qed.
-Lemma fse_quic_eq : forall c s, fse_quic c s = (s, SRemoteTerminate c).
-Proof. reflexivity. Qed.
+Definition quic_serr (o : option N) : serr := match o with Some c => SRemoteTerminate c | None => SUndefined end.
+Lemma fse_quic_eq : forall o s, fse_quic o s = (s, quic_serr o).
+Proof. intros [c|] s; reflexivity. Qed.
 Lemma on_stream_unknown_eq : forall s, on_stream_unknown s = (s, SUndefined).
 Proof. reflexivity. Qed.
 
@@ -625,7 +626,7 @@ Definition rd_post (sh : shared) (f : fstream) (T : list ev) (d : bytes) (e : en
       (msr f' <= msr f)%nat
   | (RdTrailers k, sh', f') =>
       sh' = sh /\ d = [] /\ fs_ok f' /\ remaining f' = 0 /\ tail_ok (pend f' ++ T) e k /\ (msr f' < msr f)%nat
-  | (RdErr er, sh', _) => sh' = sh /\ exists c, e = EndReset c /\ er = SRemoteTerminate c
+  | (RdErr er, sh', _) => sh' = sh /\ exists c, e = EndReset c /\ er = quic_serr c
   | _ => False
   end.
 
